@@ -330,12 +330,15 @@ def gen_multi_case(rng):
     def free_of(text, tr):
         return not any(sp in text for sp in tr)
 
+    # half of the scenarios have tables of one length, so that a whole column of one table
+    # can be assigned to another (data flowing between live tables)
+    same_len, n_common = rng.random() < 0.5, rng.randint(2, 8)
     tables, alphas = [], []
     for k in range(nt):
         # names that look like count/offset selectors of the other tables
         odd = [t for j in range(nt) if j != k for t in (sel_text(seps[j]) for _ in range(4))]
         alpha = base + [t for t in odd if t not in base and all(free_of(t, seps[j]) for j in [k])][:rng.choice([0, 1, 2])]
-        n = rng.randint(2, 8)
+        n = n_common if same_len else rng.randint(2, 8)
         idx = [rng.choice(alpha) for _ in range(n)]
         tables.append({"idx": idx, "cols": [["x", [rng.randint(-50, 50) for _ in range(n)]]], "seps": list(seps[k])})
         alphas.append(alpha)
@@ -358,6 +361,26 @@ def gen_multi_case(rng):
                 steps.append([k, ["setcell", "name", ["str", text], rng.choice(alphas[k])]])
             else:
                 steps.append([k, ["unique"]])
+        if same_len and rng.random() < 0.35:
+            # t[index] = u[index]: the other table's array itself, a copy, or a list; afterwards cells of
+            # BOTH tables are renamed and names looked up on both (each must follow its own column only)
+            k, j = rng.sample(range(nt), 2)
+            if all(free_of(a, cur_seps[k]) for a in alphas[j]):
+                steps.append([k, ["setidxfrom", j, rng.choice(["array", "array", "copy", "list"]), rng.choice(["item", "attr"])]])
+                alphas[k] = list(dict.fromkeys(alphas[k] + alphas[j]))
+                for who in (k, j, k, j):
+                    nm = rng.choice(alphas[who])
+                    z = rng.random()
+                    if z < 0.4:
+                        steps.append([who, ["getindex", ["tup2", nm, rng.choice([0, 1, -1])]]])
+                    elif z < 0.75:
+                        steps.append([who, ["setcell", "name", ["int", rng.randint(-n_common, n_common - 1)], rng.choice(alphas[who])]])
+                    else:
+                        steps.append([who, ["setcell", "name", ["tup2", nm, rng.choice([0, -1])], rng.choice(alphas[who])]])
+                for who in (k, j):
+                    nm = rng.choice(alphas[who])
+                    steps.append([who, [rng.choice(["getindex", "floordiv"]), ["tup2", nm, rng.choice([0, 1, -1])]]])
+                    steps.append([who, ["unique"]])
         if rng.random() < 0.25:
             # t._sep_* = ... : only to a value that no name of that table contains
             k = rng.randrange(nt)
@@ -394,7 +417,9 @@ def emit_multi_cases(cases, results):
             continue
         for k, op in m["steps"]:
             kind = op[0]
-            if kind == "setsep":
+            if kind == "setidxfrom":
+                steps.append(f"({k}%nat, MSetIdxFrom {op[1]}%nat)")
+            elif kind == "setsep":
                 j = ["count", "previous", "next"].index(op[1])
                 seps[k][j] = op[2]
                 steps.append(f"({k}%nat, MSetSeps {cn(SP(tuple(seps[k])))} {'true' if op[1] == 'count' else 'false'})")
@@ -669,7 +694,8 @@ def run(ctx):
                 "over the whole range of occurrence numbers of ITS index column, 1-3 times; plus 300 (quick) / 5000 (thorough) scenarios with 2-3 tables "
                 "alive in one process that differ in sep_count / sep_previous / sep_next (constructor arguments, sometimes t._sep_* = ... later), "
                 "row names containing another table's separators, the same selector texts sent to each in random interleaving through "
-                "get_index, //, table[col,row], table[index,row] = v and get_index_unique (KeyError included); non-trivial = an index-column "
+                "get_index, //, table[col,row], table[index,row] = v and get_index_unique (KeyError included), and whole index columns assigned from "
+                "one live table to another (the array object itself / a copy / a list) followed by cell renames and lookups on both; non-trivial = an index-column "
                 "mutation followed by a name-based lookup; distinct by (table, ops)")
     proof_ok = vlib.standard_proof_part(ctx, "props/C07.v", allowed_axioms=(), extra_targets=["run/RunTable.vo", "run/RunTableDerive.vo", "run/RunTableMulti.vo"])
     n = ctx.pick(600, 12000)
